@@ -1,0 +1,643 @@
+//! Verification hooks. Only compiled with `--cfg rustradio_verif`.
+//!
+//! * `sync::{Mutex, Condvar}`: drop-in shims for the std types used by
+//!   circular_buffer.rs and stream.rs. Without a controller installed they
+//!   delegate to std. With one, every lock / condvar wait / explicit point is a
+//!   scheduling point at which the calling (registered) thread parks until
+//!   granted by the controller, so exactly one registered thread runs at a time.
+//! * `emit()`: event tracer (ndjson lines), off unless tracing is started.
+//! * `stream_size()`: override for the default stream size.
+//! * `crash_point()`: named points at which a test may kill the process.
+use std::cell::{Cell, RefCell};
+use std::collections::BTreeMap;
+use std::sync::atomic::{AtomicBool, AtomicUsize, Ordering};
+use std::sync::{Arc, Condvar as StdCondvar, Mutex as StdMutex};
+
+// ----------------------------------------------------------- stream size
+
+static STREAM_SIZE: AtomicUsize = AtomicUsize::new(0);
+thread_local! {
+    static TL_STREAM_SIZE: Cell<usize> = const { Cell::new(0) };
+}
+
+/// Stream size used by `new_stream()`: thread-local override, then global
+/// override, then the library default.
+pub fn stream_size() -> usize {
+    match TL_STREAM_SIZE.with(|c| c.get()) {
+        0 => match STREAM_SIZE.load(Ordering::SeqCst) {
+            0 => crate::stream::DEFAULT_STREAM_SIZE,
+            n => n,
+        },
+        n => n,
+    }
+}
+/// Override stream size for all threads (0 = default).
+pub fn set_stream_size(n: usize) {
+    STREAM_SIZE.store(n, Ordering::SeqCst);
+}
+/// Override stream size for streams created by this thread (0 = no override).
+pub fn set_thread_stream_size(n: usize) {
+    TL_STREAM_SIZE.with(|c| c.set(n));
+}
+
+// ---------------------------------------------------------------- tracer
+
+static TRACE_ON: AtomicBool = AtomicBool::new(false);
+static TRACE: StdMutex<Vec<String>> = StdMutex::new(Vec::new());
+static NEXT_TRACE_TID: AtomicUsize = AtomicUsize::new(1000);
+thread_local! {
+    static TRACE_TID: Cell<i64> = const { Cell::new(-1) };
+}
+
+/// Start collecting events (clears anything collected before).
+pub fn trace_start() {
+    TRACE.lock().unwrap().clear();
+    TRACE_ON.store(true, Ordering::SeqCst);
+}
+/// Stop collecting and return the events, in emission order.
+pub fn trace_take() -> Vec<String> {
+    TRACE_ON.store(false, Ordering::SeqCst);
+    std::mem::take(&mut *TRACE.lock().unwrap())
+}
+/// Return events collected so far without stopping.
+pub fn trace_drain() -> Vec<String> {
+    std::mem::take(&mut *TRACE.lock().unwrap())
+}
+pub fn tracing() -> bool {
+    TRACE_ON.load(Ordering::Relaxed)
+}
+/// Give the calling thread an id for events (uncontrolled threads).
+pub fn set_trace_tid(t: i64) {
+    TRACE_TID.with(|c| c.set(t));
+}
+fn trace_tid() -> i64 {
+    match current_tid() {
+        Some(t) => t as i64,
+        None => TRACE_TID.with(|c| c.get()),
+    }
+}
+/// Emit one event. `body` is the inside of a JSON object, without braces.
+/// The order of events is the order in which `emit` acquired the trace lock;
+/// callers that hold the lock protecting the state they report therefore get
+/// a linearization order.
+pub fn emit(body: String) {
+    if !tracing() {
+        return;
+    }
+    let t = trace_tid();
+    TRACE.lock().unwrap().push(format!("{{\"t\":{t},{body}}}"));
+}
+/// JSON-escape a string.
+pub fn jstr(s: &str) -> String {
+    serde_json::to_string(s).unwrap_or_else(|_| "\"?\"".to_string())
+}
+
+// ---------------------------------------------------------- crash points
+
+static CRASH_AT: StdMutex<Option<(String, usize)>> = StdMutex::new(None);
+/// Arm: the `n`th (1-based) time `crash_point(name)` is reached, the process
+/// kills itself with SIGKILL.
+pub fn arm_crash(name: &str, n: usize) {
+    *CRASH_AT.lock().unwrap() = Some((name.to_string(), n));
+}
+pub fn crash_point(name: &str) {
+    let mut g = CRASH_AT.lock().unwrap();
+    if let Some((want, n)) = g.as_mut() {
+        if want == name {
+            *n -= 1;
+            if *n == 0 {
+                // SAFETY: killing ourselves. No memory is touched.
+                unsafe {
+                    libc::kill(libc::getpid(), libc::SIGKILL);
+                }
+                loop {
+                    std::thread::sleep(std::time::Duration::from_secs(1));
+                }
+            }
+        }
+    }
+}
+
+// ------------------------------------------------------------ controller
+
+/// What a parked thread is about to do.
+#[derive(Clone, Debug, PartialEq)]
+pub enum Point {
+    /// First thing a registered thread does.
+    Start,
+    /// About to lock shim mutex `id`.
+    Lock(usize),
+    /// Just released shim mutex `id`.
+    Unlocked(usize),
+    /// Waiting on condvar `cv`, having released mutex `m`.
+    CvWait(usize, usize),
+    /// Explicit point before a lock-free shared access.
+    Named(&'static str),
+    /// About to join thread `tid`.
+    Join(usize),
+}
+
+impl Point {
+    /// Short name used in traces.
+    pub fn kind(&self) -> String {
+        match self {
+            Point::Start => "start".to_string(),
+            Point::Lock(_) => "lock".to_string(),
+            Point::Unlocked(_) => "unlocked".to_string(),
+            Point::CvWait(_, _) => "cvwait".to_string(),
+            Point::Named(n) => n.to_string(),
+            Point::Join(_) => "join".to_string(),
+        }
+    }
+    /// Mutex involved, if any.
+    pub fn mutex(&self) -> usize {
+        match self {
+            Point::Lock(m) | Point::Unlocked(m) | Point::CvWait(_, m) => *m,
+            _ => 0,
+        }
+    }
+}
+
+/// Decision passed to a thread when it is granted.
+#[derive(Clone, Debug, PartialEq)]
+pub enum Grant {
+    Go,
+    Notified,
+    Timeout,
+}
+
+#[derive(Debug)]
+struct ThreadSt {
+    name: String,
+    std_id: std::thread::ThreadId,
+    parked: Option<Point>,
+    grant: Option<Grant>,
+    exited: bool,
+    notified: bool, // for CvWait: a notify_all happened since parking.
+}
+
+#[derive(Default)]
+struct CtlState {
+    threads: BTreeMap<usize, ThreadSt>,
+    running: Option<usize>, // thread currently granted and not yet parked again.
+    held: BTreeMap<usize, usize>, // mutex id -> holder tid.
+}
+
+/// Deterministic scheduler for registered threads.
+pub struct Controller {
+    st: StdMutex<CtlState>,
+    cv: StdCondvar,
+    next_tid: AtomicUsize,
+}
+
+static CTRL: StdMutex<Option<Arc<Controller>>> = StdMutex::new(None);
+static NEXT_ID: AtomicUsize = AtomicUsize::new(1);
+
+thread_local! {
+    static TID: RefCell<Option<TlsReg>> = const { RefCell::new(None) };
+}
+
+struct TlsReg {
+    tid: usize,
+    ctl: Arc<Controller>,
+}
+impl Drop for TlsReg {
+    fn drop(&mut self) {
+        let mut st = self.ctl.st.lock().unwrap();
+        if let Some(t) = st.threads.get_mut(&self.tid) {
+            t.exited = true;
+            t.parked = None;
+        }
+        st.held.retain(|_, h| *h != self.tid);
+        if st.running == Some(self.tid) {
+            st.running = None;
+        }
+        self.ctl.cv.notify_all();
+    }
+}
+
+/// Controller thread id of the calling thread, if registered.
+pub fn current_tid() -> Option<usize> {
+    TID.try_with(|t| t.borrow().as_ref().map(|r| r.tid))
+        .ok()
+        .flatten()
+}
+fn my_ctl() -> Option<(usize, Arc<Controller>)> {
+    TID.try_with(|t| t.borrow().as_ref().map(|r| (r.tid, r.ctl.clone())))
+        .ok()
+        .flatten()
+}
+fn controller() -> Option<Arc<Controller>> {
+    CTRL.lock().unwrap().clone()
+}
+
+/// Install a fresh controller. Returns it.
+pub fn install_controller() -> Arc<Controller> {
+    let c = Arc::new(Controller {
+        st: StdMutex::new(CtlState::default()),
+        cv: StdCondvar::new(),
+        next_tid: AtomicUsize::new(0),
+    });
+    *CTRL.lock().unwrap() = Some(c.clone());
+    c
+}
+/// Remove the controller; threads registered afterwards run freely.
+pub fn remove_controller() {
+    *CTRL.lock().unwrap() = None;
+}
+
+/// Register the calling thread with the controller (if any) and park at
+/// `Point::Start`. Without a controller: if tracing, give the thread a trace
+/// id.
+pub fn thread_start(name: &str) {
+    let Some(ctl) = controller() else {
+        if tracing() && TRACE_TID.with(|c| c.get()) < 0 {
+            set_trace_tid(NEXT_TRACE_TID.fetch_add(1, Ordering::SeqCst) as i64);
+            emit(format!("\"ev\":\"thread\",\"name\":{}", jstr(name)));
+        }
+        return;
+    };
+    let tid = ctl.next_tid.fetch_add(1, Ordering::SeqCst);
+    {
+        let mut st = ctl.st.lock().unwrap();
+        st.threads.insert(
+            tid,
+            ThreadSt {
+                name: name.to_string(),
+                std_id: std::thread::current().id(),
+                parked: None,
+                grant: None,
+                exited: false,
+                notified: false,
+            },
+        );
+    }
+    TID.with(|t| {
+        *t.borrow_mut() = Some(TlsReg {
+            tid,
+            ctl: ctl.clone(),
+        })
+    });
+    let _ = park(&ctl, tid, Point::Start);
+}
+
+fn park(ctl: &Arc<Controller>, tid: usize, p: Point) -> Grant {
+    let mut st = ctl.st.lock().unwrap();
+    {
+        let t = st.threads.get_mut(&tid).unwrap();
+        t.parked = Some(p);
+        t.grant = None;
+        t.notified = false;
+    }
+    if st.running == Some(tid) {
+        st.running = None;
+    }
+    ctl.cv.notify_all();
+    loop {
+        if let Some(g) = st.threads.get_mut(&tid).unwrap().grant.take() {
+            st.threads.get_mut(&tid).unwrap().parked = None;
+            return g;
+        }
+        st = ctl.cv.wait(st).unwrap();
+    }
+}
+
+/// Scheduling point. No-op for unregistered threads / no controller.
+pub fn point(p: Point) -> Grant {
+    let Some((tid, ctl)) = my_ctl() else {
+        return Grant::Go;
+    };
+    park(&ctl, tid, p)
+}
+/// Called by a parent right after spawning: wait until the child has
+/// registered and parked at its start point. No-op if the caller is not
+/// registered.
+pub fn await_registered(id: std::thread::ThreadId) {
+    let Some((_, ctl)) = my_ctl() else { return };
+    let mut st = ctl.st.lock().unwrap();
+    loop {
+        if st
+            .threads
+            .values()
+            .any(|t| t.std_id == id && (t.parked.is_some() || t.exited))
+        {
+            return;
+        }
+        st = ctl.cv.wait(st).unwrap();
+    }
+}
+/// Scheduling point before joining thread `id`; enabled once it has exited.
+pub fn join_point(id: std::thread::ThreadId) {
+    let Some((_, ctl)) = my_ctl() else { return };
+    let j = {
+        let st = ctl.st.lock().unwrap();
+        st.threads
+            .iter()
+            .find(|(_, t)| t.std_id == id)
+            .map(|(k, _)| *k)
+    };
+    if let Some(j) = j {
+        let _ = point(Point::Join(j));
+    }
+}
+/// Explicit scheduling point.
+pub fn named_point(name: &'static str) {
+    let _ = point(Point::Named(name));
+}
+
+/// One live thread as seen by the scheduler driver.
+#[derive(Clone, Debug)]
+pub struct ThreadView {
+    pub tid: usize,
+    pub name: String,
+    pub point: Point,
+    pub enabled: Vec<Grant>,
+}
+
+impl Controller {
+    /// Block until no registered thread is running, and at least `n` threads
+    /// have registered. Returns the live (not exited) threads.
+    pub fn settle(&self, n: usize) -> Vec<ThreadView> {
+        let mut st = self.st.lock().unwrap();
+        loop {
+            let all_parked = st.running.is_none()
+                && st.threads.len() >= n
+                && st.threads.values().all(|t| t.exited || t.parked.is_some());
+            if all_parked {
+                break;
+            }
+            st = self.cv.wait(st).unwrap();
+        }
+        let mut out = Vec::new();
+        for (tid, t) in st.threads.iter() {
+            if t.exited {
+                continue;
+            }
+            let p = t.parked.clone().unwrap();
+            let en = match &p {
+                Point::Lock(m) => {
+                    if st.held.contains_key(m) {
+                        vec![]
+                    } else {
+                        vec![Grant::Go]
+                    }
+                }
+                Point::CvWait(_, m) => {
+                    if st.held.contains_key(m) {
+                        vec![]
+                    } else if t.notified {
+                        vec![Grant::Notified, Grant::Timeout]
+                    } else {
+                        vec![Grant::Timeout]
+                    }
+                }
+                Point::Join(j) => {
+                    if st.threads.get(j).map(|x| x.exited).unwrap_or(false) {
+                        vec![Grant::Go]
+                    } else {
+                        vec![]
+                    }
+                }
+                _ => vec![Grant::Go],
+            };
+            out.push(ThreadView {
+                tid: *tid,
+                name: t.name.clone(),
+                point: p,
+                enabled: en,
+            });
+        }
+        out
+    }
+    /// Grant a parked thread.
+    pub fn grant(&self, tid: usize, g: Grant) {
+        let mut st = self.st.lock().unwrap();
+        assert!(st.running.is_none());
+        st.running = Some(tid);
+        st.threads.get_mut(&tid).unwrap().grant = Some(g);
+        self.cv.notify_all();
+    }
+    /// Number of threads ever registered.
+    pub fn registered(&self) -> usize {
+        self.st.lock().unwrap().threads.len()
+    }
+    /// True if all registered threads have exited.
+    pub fn all_exited(&self) -> bool {
+        let st = self.st.lock().unwrap();
+        st.threads.values().all(|t| t.exited)
+    }
+    fn notify(&self, cv: usize) {
+        let mut st = self.st.lock().unwrap();
+        for t in st.threads.values_mut() {
+            if let Some(Point::CvWait(c, _)) = t.parked {
+                if c == cv {
+                    t.notified = true;
+                }
+            }
+        }
+    }
+    fn set_held(&self, m: usize, tid: Option<usize>) {
+        let mut st = self.st.lock().unwrap();
+        match tid {
+            Some(t) => {
+                st.held.insert(m, t);
+            }
+            None => {
+                st.held.remove(&m);
+            }
+        }
+    }
+}
+
+// ----------------------------------------------------------------- shims
+
+pub mod sync {
+    use super::*;
+    pub use std::sync::Arc;
+    use std::sync::{LockResult, PoisonError};
+
+    pub struct Mutex<T> {
+        inner: StdMutex<T>,
+        id: usize,
+    }
+    impl<T: std::fmt::Debug> std::fmt::Debug for Mutex<T> {
+        fn fmt(&self, f: &mut std::fmt::Formatter<'_>) -> std::fmt::Result {
+            self.inner.fmt(f)
+        }
+    }
+    pub struct MutexGuard<'a, T> {
+        g: Option<std::sync::MutexGuard<'a, T>>,
+        m: &'a Mutex<T>,
+        tracked: bool,
+    }
+    impl<T> Mutex<T> {
+        pub fn new(t: T) -> Self {
+            Self {
+                inner: StdMutex::new(t),
+                id: NEXT_ID.fetch_add(1, Ordering::SeqCst),
+            }
+        }
+        /// Identity of this mutex in events and points.
+        pub fn id(&self) -> usize {
+            self.id
+        }
+        pub fn lock(&self) -> LockResult<MutexGuard<'_, T>> {
+            let reg = my_ctl();
+            let tracked = reg.is_some();
+            if tracked {
+                let _ = point(Point::Lock(self.id));
+            }
+            let r = self.inner.lock();
+            if let Some((tid, ctl)) = reg {
+                ctl.set_held(self.id, Some(tid));
+            }
+            match r {
+                Ok(g) => Ok(MutexGuard {
+                    g: Some(g),
+                    m: self,
+                    tracked,
+                }),
+                Err(e) => Err(PoisonError::new(MutexGuard {
+                    g: Some(e.into_inner()),
+                    m: self,
+                    tracked,
+                })),
+            }
+        }
+    }
+    impl<T> MutexGuard<'_, T> {
+        /// Identity of the guarded mutex.
+        pub fn id(&self) -> usize {
+            self.m.id
+        }
+    }
+    impl<T> Drop for MutexGuard<'_, T> {
+        fn drop(&mut self) {
+            if self.g.take().is_some() && self.tracked {
+                if let Some((_, ctl)) = my_ctl() {
+                    ctl.set_held(self.m.id, None);
+                }
+                if !std::thread::panicking() {
+                    let _ = point(Point::Unlocked(self.m.id));
+                }
+            }
+        }
+    }
+    impl<T> std::ops::Deref for MutexGuard<'_, T> {
+        type Target = T;
+        fn deref(&self) -> &T {
+            self.g.as_ref().unwrap()
+        }
+    }
+    impl<T> std::ops::DerefMut for MutexGuard<'_, T> {
+        fn deref_mut(&mut self) -> &mut T {
+            self.g.as_mut().unwrap()
+        }
+    }
+
+    pub struct WaitTimeoutResult(pub bool);
+    impl WaitTimeoutResult {
+        pub fn timed_out(&self) -> bool {
+            self.0
+        }
+    }
+
+    pub struct Condvar {
+        inner: StdCondvar,
+        id: usize,
+    }
+    impl std::fmt::Debug for Condvar {
+        fn fmt(&self, f: &mut std::fmt::Formatter<'_>) -> std::fmt::Result {
+            write!(f, "Condvar({})", self.id)
+        }
+    }
+    impl Default for Condvar {
+        fn default() -> Self {
+            Self::new()
+        }
+    }
+    impl Condvar {
+        pub fn new() -> Self {
+            Self {
+                inner: StdCondvar::new(),
+                id: NEXT_ID.fetch_add(1, Ordering::SeqCst),
+            }
+        }
+        pub fn notify_all(&self) {
+            if let Some(c) = controller() {
+                c.notify(self.id);
+            }
+            self.inner.notify_all();
+        }
+        /// Same contract as `std::sync::Condvar::wait_timeout_while`. Under a
+        /// controller the timeout is a scheduling decision, not wall-clock.
+        pub fn wait_timeout_while<'a, T, F>(
+            &self,
+            mut guard: MutexGuard<'a, T>,
+            dur: std::time::Duration,
+            mut condition: F,
+        ) -> LockResult<(MutexGuard<'a, T>, WaitTimeoutResult)>
+        where
+            F: FnMut(&mut T) -> bool,
+        {
+            if !guard.tracked {
+                let m = guard.m;
+                let g = guard.g.take().unwrap();
+                let (g, r) = self
+                    .inner
+                    .wait_timeout_while(g, dur, condition)
+                    .map_err(|_| ())
+                    .expect("poisoned");
+                emit(format!(
+                    "\"ev\":\"cvret\",\"m\":{},\"timeout\":{}",
+                    m.id,
+                    r.timed_out()
+                ));
+                return Ok((
+                    MutexGuard {
+                        g: Some(g),
+                        m,
+                        tracked: false,
+                    },
+                    WaitTimeoutResult(r.timed_out()),
+                ));
+            }
+            loop {
+                if !condition(&mut *guard) {
+                    emit(format!(
+                        "\"ev\":\"cvret\",\"m\":{},\"timeout\":false",
+                        guard.m.id
+                    ));
+                    return Ok((guard, WaitTimeoutResult(false)));
+                }
+                let m = guard.m;
+                guard.tracked = false; // release without an Unlocked point.
+                drop(guard);
+                let reg = my_ctl();
+                if let Some((_, ctl)) = &reg {
+                    ctl.set_held(m.id, None);
+                }
+                let r = point(Point::CvWait(self.id, m.id));
+                // Re-acquire without a scheduling point: the controller only
+                // wakes a waiter when the mutex is free.
+                let g = m.inner.lock().unwrap();
+                if let Some((tid, ctl)) = &reg {
+                    ctl.set_held(m.id, Some(*tid));
+                }
+                guard = MutexGuard {
+                    g: Some(g),
+                    m,
+                    tracked: true,
+                };
+                if r == Grant::Timeout {
+                    let still = condition(&mut *guard);
+                    emit(format!(
+                        "\"ev\":\"cvret\",\"m\":{},\"timeout\":{still}",
+                        m.id
+                    ));
+                    return Ok((guard, WaitTimeoutResult(still)));
+                }
+            }
+        }
+    }
+}
